@@ -1,0 +1,76 @@
+//! Verification hook H3 (compiled only under `--cfg zinoma_verif`): named crash points of the build cycle.
+//!
+//! `ZINOMA_VERIF_CRASH=<name>` aborts the process (no unwinding, no flushing: as if zinoma had been killed) when the
+//! crash point `<name>` is reached; `ZINOMA_VERIF_CRASH=write:<k>` aborts the state write once exactly `k` bytes of the
+//! record have reached the file. Unset, nothing happens.
+use std::io::{self, Write};
+
+fn requested() -> Option<(String, Option<u64>)> {
+    let v = std::env::var("ZINOMA_VERIF_CRASH").ok()?;
+    match v.split_once(':') {
+        Some((name, offset)) => Some((name.to_string(), offset.parse().ok())),
+        None => Some((v, None)),
+    }
+}
+
+pub fn crash_point(name: &str) {
+    if let Some((requested_name, None)) = requested() {
+        if requested_name == name {
+            std::process::abort();
+        }
+    }
+}
+
+/// Forwards to the inner writer; dies after the requested number of bytes.
+pub struct CrashingWriter<W: Write> {
+    inner: W,
+    written: u64,
+    limit: Option<u64>,
+}
+
+impl<W: Write> CrashingWriter<W> {
+    pub fn new(inner: W) -> Self {
+        crash_point("after_create");
+        let limit = match requested() {
+            Some((name, Some(offset))) if name == "write" => Some(offset),
+            _ => None,
+        };
+        let mut writer = Self {
+            inner,
+            written: 0,
+            limit,
+        };
+        writer.maybe_crash();
+        writer
+    }
+
+    fn maybe_crash(&mut self) {
+        if self.limit == Some(self.written) {
+            let _ = self.inner.flush();
+            std::process::abort();
+        }
+    }
+}
+
+impl<W: Write> Write for CrashingWriter<W> {
+    fn write(&mut self, buf: &[u8]) -> io::Result<usize> {
+        let allowed = match self.limit {
+            Some(limit) => std::cmp::min(buf.len() as u64, limit.saturating_sub(self.written)) as usize,
+            None => buf.len(),
+        };
+        let n = self.inner.write(&buf[..allowed])?;
+        self.written += n as u64;
+        self.maybe_crash();
+        Ok(n)
+    }
+
+    fn flush(&mut self) -> io::Result<()> {
+        self.inner.flush()
+    }
+}
+
+impl<W: Write> Drop for CrashingWriter<W> {
+    fn drop(&mut self) {
+        crash_point("after_write");
+    }
+}
